@@ -12,11 +12,12 @@
   * the string-storage options (`dynamic`, `onDemand`, `deleteFrees`) change the allocation state
     of the buffers.  `NmfuProps/C12Storage.lean` proves a refinement of the runtime model to a
     semantics on storage-free stores (`C12_session_refines`) and from it
-    `C12_storage_independent`: for machines passing `safeCheck` and `idxFreeCheck`, any two
-    storage settings give the same codes, cursors, scalars, buffer lengths and contents on every
-    sequence of API calls.  A machine with an index expression `s[i]` is outside that theorem
-    (an index at or beyond the current length reads stale or uninitialised bytes, which do depend
-    on where the buffer lives): for those the differential runs are all there is.
+    `C12_storage_independent`: for machines passing `safeCheck`, any two storage settings give
+    the same codes, cursors, scalars, buffer lengths and contents on every sequence of API calls —
+    provided index expressions `s[i]` are bounds-checked (the default; the check is against the
+    current length) or absent.  With `-funsafe-string-indexing` an index at or beyond the length
+    reads stale or uninitialised bytes, which do depend on where the buffer lives: such machines
+    are outside the theorem (and that option is not one of the representation options of C12).
     `C12_storage_independent_partial` (events that touch no buffer, any machine) is kept.
 -/
 import NmfuProps.C10
